@@ -118,9 +118,21 @@ class AltFilter(sansldap.LDAPFilter):
         return AltFilter(raw=reader.read_octet_string(ASN1Tag(TagClass.CONTEXT_SPECIFIC, cls.filter_id, False))[::-1])
 
 
-BY_NAME = {"CustomAuth": CustomAuth, "CustomControl": CustomControl, "CustomFilter": CustomFilter,
+@dataclasses.dataclass(frozen=True)
+class SubControl(sansldap.ShowDeletedControl):
+    """An application control that derives from a public built-in control class but has its own OID."""
+
+    control_type: str = dataclasses.field(init=False, default="1.2.3.4.9")
+
+    @classmethod
+    def unpack(cls, control_type: str, critical: bool, value: t.Optional[bytes], options: sansldap.ControlOptions) -> "SubControl":
+        return SubControl(critical=critical)
+
+
+BY_NAME = {"SubControl": SubControl, "CustomAuth": CustomAuth, "CustomControl": CustomControl, "CustomFilter": CustomFilter,
            "AltAuth": AltAuth, "AltControl": AltControl, "AltFilter": AltFilter}
 REGISTER_METHOD = {
+    "SubControl": "register_control",
     "CustomAuth": "register_auth_credential",
     "CustomControl": "register_control",
     "CustomFilter": "register_filter",
@@ -128,5 +140,5 @@ REGISTER_METHOD = {
     "AltControl": "register_control",
     "AltFilter": "register_filter",
 }
-SLOT = {"CustomAuth": "auth", "AltAuth": "auth", "CustomControl": "control", "AltControl": "control",
+SLOT = {"SubControl": "subcontrol", "CustomAuth": "auth", "AltAuth": "auth", "CustomControl": "control", "AltControl": "control",
         "CustomFilter": "filter", "AltFilter": "filter"}
